@@ -608,6 +608,9 @@ def into_records(inst_text, conv_text):
         else:
             refuse(W, f"into_records: step not recognised: {rest[:120]}")
     if sorted(order) != ['addresses', 'attributes', 'ports']: refuse(W, f"into_records: steps {order}")
+    # (the order of the three groups within the list of records is not part of what is advertised: any order of the same
+    # three steps reads as the same item)
+    order = ['addresses', 'ports', 'attributes']
     new = lambda rd: r'ResourceRecord::new\(name\.clone\(\),CLASS::(\w+),rr_ttl,' + rd + r',?\)'
     b = block_after(conv_text, r"\bfn ip_addr_to_resource_record<'a>\(", W)
     m = re.match(r'match addr\{IpAddr::V4\(ip\)=>\{' + new(r'RData::(\w+)\(\2::from\(ip\)\)') + r'\}IpAddr::V6\(ip\)=>\{' + new(r'RData::(\w+)\(\4::from\(ip\)\)') + r'\}\}$', b)
